@@ -415,7 +415,7 @@ def _r7(ctx):
     every append is followed by `if self._run_index == 1: counter += 1`, the counter changes nowhere else, and the two
     accessors return the slices [:counter] and [counter:] of the same list."""
     prog = ctx.prog
-    ctx.rule("R-C05-7", floor=6, what="visited strains: every append is paired with a pass-1-guarded counter increment; accessors slice at the counter")
+    ctx.rule("R-C05-7", floor=2, what="visited strains: every append is paired with a pass-1-guarded counter increment; accessors slice at the counter")
     ci = prog.cls(D[:-1])
 
     def slice_parts(meth):
@@ -633,7 +633,7 @@ def _r8(ctx):
     comparison of stresses or strains - e.g. a running extreme against the current strain - is a violation; such
     selections have to be element-wise."""
     prog = ctx.prog
-    ctx.rule("R-C05-8", floor=3, what="decisions taken on the first assessment point compare loads or sample positions only")
+    ctx.rule("R-C05-8", floor=1, what="decisions taken on the first assessment point compare loads or sample positions only")
     ci = prog.cls(D[:-1])
     # per-point attributes of kind stress/strain: assigned (transitively) from .strain / .stress of a point
     ekind = set()
